@@ -659,6 +659,8 @@ def program_case(draw: Any) -> dict[str, Any]:
         data = _truncate(data, 1)
     return {"kind": "prog", "prog": prog, "data": data, "shopify": bool(g.tablerow or draw(st.booleans())),
             "suppress": draw(st.sampled_from([True, True, True, False])),
+            # the limits are enforced by hand-written sync/async twins (block.super has an async getter of its own)
+            "mode": draw(st.sampled_from(["sync", "sync", "async"])),
             "families": ["output", "loop", "namespace", "depth"]}
 
 
@@ -921,6 +923,8 @@ class C06(Prop):
                 tmpl.render_with_context(ctx, buf)
                 r["out"] = buf.getvalue()
                 r["root_size"] = _own_size(ctx)
+            elif case.get("mode") == "async":
+                r["out"] = run_coro(tmpl.render_async(**data))
             else:
                 r["out"] = tmpl.render(**data)
         except LiquidError as err:
